@@ -134,6 +134,10 @@ Definition xwf (c : xcase) : bool :=
                         && nt_unknown_ok (ivk_unknown k) && enc_ok e
          | _ => true
          end
+  | XNarrowNt t k o =>
+      wf_tab t && negb (is_some (fvk_t k)) && ookb FVK_SAPLING_LEN (fvk_s k) && ookb FVK_ORCHARD_LEN (fvk_o k)
+      && nt_unknown_ok (fvk_unknown k)
+      && match o with Ok l => forallb (fun it => is_bytes (snd it)) l | _ => true end
   end.
 
 Definition wf_case (c : case) : bool :=
